@@ -94,15 +94,16 @@ struct Config {
     size_t size; uint32_t place; int cs;        // cs 0 default (trivial 16 bit) 1 crc16 (init 0xffff) 2 sum32 (init 0x12345678)
     long aux;                                   // -1: none; otherwise the aux buffer size (0 allowed)
     int order;                                  // 0: place, then sum  1: sum, then place  2: first configured with the checksum of the other width (other algorithm, all-ones initial value), then placed, then re-configured
+    int moved = 0;                              // 1: the instance is configured in one place and used from another (struct copy; the original is poisoned)
     int top = 0;                                // 1: the medium is mapped so that the instance's last octet has the address 0xffffffff (place etc. stay indices into the medium)
     size_t cssize() const { return cs == 2 ? 4 : 2; }
     uint32_t data_addr() const { return place + (uint32_t)cssize(); }
 };
-inline std::string ser(const Config &c) { return vp::fmt("cfg %zu %u %d %ld %d", c.size, c.place, c.cs, c.aux, c.order + 10 * c.top); }
+inline std::string ser(const Config &c) { return vp::fmt("cfg %zu %u %d %ld %d", c.size, c.place, c.cs, c.aux, c.order + 10 * c.top + 100 * c.moved); }
 inline uint32_t origin_of(const Config &c) { return c.top ? (uint32_t)(0u - (c.place + (uint32_t)c.cssize() + (uint32_t)c.size)) : 0u; }
 inline bool parse_cfg(const std::vector<std::string> &w, Config &c) {
     if (w.size() < 6 || w[0] != "cfg") return false;
-    c.size = strtoull(w[1].c_str(), 0, 10); c.place = (uint32_t)strtoul(w[2].c_str(), 0, 10); c.cs = atoi(w[3].c_str()); c.aux = atol(w[4].c_str()); c.order = atoi(w[5].c_str()); c.top = c.order / 10; c.order %= 10;
+    c.size = strtoull(w[1].c_str(), 0, 10); c.place = (uint32_t)strtoul(w[2].c_str(), 0, 10); c.cs = atoi(w[3].c_str()); c.aux = atol(w[4].c_str()); c.order = atoi(w[5].c_str()); c.moved = c.order / 100; c.top = (c.order / 10) % 10; c.order %= 10;
     return c.size >= 1 && (uint64_t)c.place + 4 + c.size <= MSIZE && c.cs >= 0 && c.cs <= 2;
 }
 
@@ -111,6 +112,19 @@ struct Instance {
     PersistentStorage st;
     uint8_t *aux = nullptr;
     explicit Instance(const Config &c) {
+        if (c.moved) {
+            // configured elsewhere (a table entry that is later reallocated, a value returned from a set-up function): the instance is a plain
+            // struct and may be copied; the place it was configured in is reused for something else
+            PersistentStorage *tmp = (PersistentStorage *)malloc(sizeof(PersistentStorage));
+            Config c2 = c; c2.moved = 0;
+            configure(*tmp, c2);
+            memcpy(&st, tmp, sizeof st);
+            memset(tmp, 0xdd, sizeof *tmp);
+            free(tmp);
+        } else configure(st, c);
+        M().lo = c.place; M().hi = c.place + (uint32_t)c.cssize() + (uint32_t)c.size;
+    }
+    void configure(PersistentStorage &st, const Config &c) {
         memset(&st, 0, sizeof st);
         persistent_init(&st, c.size, med_read, med_write);
         M().origin = origin_of(c);
@@ -120,7 +134,6 @@ struct Instance {
         if (c.order == 2 && c.cs == 2) persistent_sum16(&st, sum_crc16, 0xffff);
         if (c.order == 0 || c.order == 2) { persistent_place(&st, place); sum(); } else { sum(); persistent_place(&st, place); }
         if (c.aux >= 0) { aux = (uint8_t *)malloc(c.aux ? (size_t)c.aux : 1); persistent_buffer(&st, aux, (size_t)c.aux); }
-        M().lo = c.place; M().hi = c.place + (uint32_t)c.cssize() + (uint32_t)c.size;
     }
     ~Instance() { free(aux); }
 };
